@@ -163,10 +163,17 @@ structure PreOK (T : Tables) (pre : Str) : Prop where
   blank : pre = [] ∨ pre.getLast? = some 32
   inert : ∀ c ∈ pre, clsTest T startItems false c = false
 
-/-- the right part: empty or starting with a blank; no digit -/
-structure PostOK (T : Tables) (post : Str) : Prop where
+/-- the right part: empty or starting with a blank; no digit; and its first word does not CONTINUE the literal:
+`fol post = false`, where `fol` is instantiated in `RTV.Props.C03Extract` with `RTV.NumExtract.isFollower` on the
+culture's regenerated follower list (multiplier suffixes `k m b …`, round-number words `thousand dozen …`, fraction
+connectors `over in out …`: RTV/Gen/NumFollow.lean).  The theorems below are about a digit FAMILY and do not use this
+field; it is part of the carrier contract because the OTHER regexes of the real extractor list read such a word
+together with the literal (`a 7777 b`, `total 1,234,567 k`), so without it the statement would not be one about the
+real list (audit item 13; `RTV.Props.C03Extract.post_k_excluded` …). -/
+structure PostOK (T : Tables) (fol : Str → Bool) (post : Str) : Prop where
   blank : post = [] ∨ post.head? = some 32
   noDigit : ∀ c ∈ post, T.digit c = false
+  noFollower : fol post = false
 
 theorem inert_noDigit {T : Tables} {c : Nat} (h : clsTest T startItems false c = false) : T.digit c = false := by
   simp [startItems, clsTest, Item.test] at h
@@ -193,7 +200,7 @@ theorem pre_inert_pos {T : Tables} (pre body : Str) (h : PreOK T pre) :
   rw [code_left pre body k hk]
   exact h.inert _ (getD_mem pre k hk)
 
-theorem rightCtx_of_post {T : Tables} (A post : Str) (h : PostOK T post) : RightCtx (A ++ post).toArray A.length := by
+theorem rightCtx_of_post {T : Tables} {fol : Str → Bool} (A post : Str) (h : PostOK T fol post) : RightCtx (A ++ post).toArray A.length := by
   rcases h.blank with h0 | h0
   · left; simp [h0]
   · right
@@ -202,7 +209,7 @@ theorem rightCtx_of_post {T : Tables} (A post : Str) (h : PostOK T post) : Right
     | nil => simp at h0
     | cons c r => simp at h0; simp [h0]
 
-theorem post_noDigit_pos {T : Tables} (A post : Str) (h : PostOK T post) :
+theorem post_noDigit_pos {T : Tables} {fol : Str → Bool} (A post : Str) (h : PostOK T fol post) :
     ∀ k, A.length ≤ k → k < (A ++ post).toArray.size → T.digit (code (A ++ post).toArray k) = false := by
   intro k hk hlt
   rw [code_toArray, getD_app_right _ _ _ hk]
@@ -267,7 +274,7 @@ contains `IntegerRegexDefinition(placeholder, mark)` -/
 theorem extract_groupedInt {T : Tables} (hT : TablesOK T) (sp : Nat → Bool) (hsp : ∀ c, isDig c → sp c = false)
     (fam : List (Nat × RE)) (hfam : FamilyOK fam = true) {ph : RE} (hph : IsPlaceHolder ph) {m : Nat}
     (hm : m = 44 ∨ m = 46) {idx : Nat} (hidx : (idx, integerRegexDefinition ph m) ∈ fam)
-    (pre post : Str) (hpre : PreOK T pre) (hpost : PostOK T post) (neg : Bool) (a : List Nat)
+    (pre post : Str) (hpre : PreOK T pre) {fol : Str → Bool} (hpost : PostOK T fol post) (neg : Bool) (a : List Nat)
     (rest : List (List Nat)) (ha : 1 ≤ a.length ∧ a.length ≤ 3) (had : ∀ x ∈ a, x < 10) (hrest : rest ≠ [])
     (hwf : ∀ grp ∈ rest, grp.length = 3 ∧ ∀ x ∈ grp, x < 10)
     (ng : Nat → Option (Nat × Nat)) (ambs : List (List (Nat × Nat)))
@@ -315,7 +322,7 @@ theorem extract_groupedDec {T : Tables} (hT : TablesOK T) (sp : Nat → Bool) (h
     (fam : List (Nat × RE)) (hfam : FamilyOK fam = true) {ph : RE} (hph : IsPlaceHolder ph) {m d : Nat}
     (hm : m = 44 ∨ m = 46) (hd : d = 44 ∨ d = 46) (hmd : m ≠ d) {idx : Nat}
     (hidx : (idx, doubleRegexDefinition ph m d) ∈ fam ∨ (idx, doubleRegexDefinition ph d m) ∈ fam)
-    (pre post : Str) (hpre : PreOK T pre) (hpost : PostOK T post) (neg : Bool) (a : List Nat)
+    (pre post : Str) (hpre : PreOK T pre) {fol : Str → Bool} (hpost : PostOK T fol post) (neg : Bool) (a : List Nat)
     (rest : List (List Nat)) (F : List Nat) (ha : 1 ≤ a.length ∧ a.length ≤ 3) (had : ∀ x ∈ a, x < 10)
     (hrest : rest ≠ []) (hwf : ∀ grp ∈ rest, grp.length = 3 ∧ ∀ x ∈ grp, x < 10) (hF : 1 ≤ F.length)
     (hFd : ∀ x ∈ F, x < 10)
